@@ -18,7 +18,7 @@ func genMarshal(tier string, seed uint64) {
 	r := &rng{s: seed}
 	n := 40
 	if tier == "thorough" {
-		n = 1500
+		n = 6000
 	}
 	for _, a := range zooAtlases() {
 		for _, t := range rootTypes() {
@@ -93,7 +93,7 @@ func genUnmarshal(tier string, seed uint64) {
 	//    the stream truncated; and the unmutated rendering itself
 	nper := 12
 	if tier == "thorough" {
-		nper = 150
+		nper = 600
 	}
 	for _, aid := range []int{1, 2, 3, 4} {
 		for _, t := range targets {
@@ -216,7 +216,7 @@ func genRemarshal(tier string, seed uint64) {
 	r := &rng{s: seed}
 	n := 12
 	if tier == "thorough" {
-		n = 500
+		n = 2000
 	}
 	for _, a := range zooAtlases() {
 		for _, t := range roundtripTypes(a) {
@@ -235,7 +235,7 @@ func genClone(tier string, seed uint64) {
 	r := &rng{s: seed}
 	n := 25
 	if tier == "thorough" {
-		n = 800
+		n = 3000
 	}
 	for _, a := range zooAtlases() {
 		for _, t := range roundtripTypes(a) {
@@ -256,7 +256,7 @@ func genPump(tier string, seed uint64) {
 	n := 6000
 	ncli := 300
 	if tier == "thorough" {
-		n, ncli = 200000, 3000
+		n, ncli = 600000, 6000
 	}
 	for i := 0; i < n; i++ {
 		cli := ""
@@ -570,7 +570,7 @@ func genAutogen(tier string, seed uint64) {
 	// values of the generated types through their autogenerated mappings, embedded pointers nil and non-nil
 	n := 3
 	if tier == "thorough" {
-		n = 40
+		n = 200
 	}
 	for k, fam := range shapeFamilies {
 		for i := 0; i < n; i++ {
@@ -608,7 +608,7 @@ func genHist(tier string, seed uint64) {
 	r := &rng{s: seed}
 	nh, hl := 300, 40
 	if tier == "thorough" {
-		nh, hl = 2000, 400
+		nh, hl = 10000, 400
 	}
 	types := []reflect.Type{}
 	for _, v := range []interface{}{int(0), "", []int{}, map[string]int{}, Inner{}, WithPtr{}, Emb{}, Rec{}, Tagged{}, OmitAll{}, Nums{}, HasShape{},
@@ -681,7 +681,7 @@ func genHist(tier string, seed uint64) {
 	}
 	reps := 1
 	if tier == "thorough" {
-		reps = 6
+		reps = 20
 	}
 	for rep := 0; rep < reps; rep++ {
 		for _, f := range []string{"cbor", "json"} {
@@ -727,7 +727,7 @@ func genHist(tier string, seed uint64) {
 	}
 	nf := 400
 	if tier == "thorough" {
-		nf = 6000
+		nf = 30000
 	}
 	// JSON items written back to back with NO separator: every item after a number starts with a character that
 	// cannot continue a number, so the stream is still self-delimiting
